@@ -127,6 +127,7 @@ func has(evs []int, e int) bool { return eventsHave(evs, e) }
 func genC11(c *Ctx) {
 	c.Rep.Rule = "SMP runs inside real sessions: secret shapes (empty, short, long, binary, one byte different), with/without question, either initiator, repeated and back-to-back runs with traffic and rotations in between, v2/v3; a relay between two separately keyed sessions forwarding the SMP payloads; every step compared with the symbolic SMP model (exponent representation); oracle: Success on both sides iff the secrets are byte-equal, never Success through the relay"
 	smpRestarts(c)
+	smpAfterKeyListChange(c)
 	n := 12
 	if c.Thorough() {
 		n = 120
